@@ -476,6 +476,7 @@ def compile_case(case: dict[str, Any], workdir: str, want_text: bool = False) ->
             raise MachineryError("export failed: " + "; ".join(snap.failed[:3]))
     except CompileError as e:
         res["error"] = "compile error: " + "; ".join(e.messages)[:300]
+        res["messages"] = list(e.messages)
     except MachineryError:
         raise
     except Exception as e:
@@ -833,6 +834,69 @@ def export_probes(args: tuple[str, str, int]) -> dict[str, Any]:
                             nops=sum(len(b) for b in rec["blocks"]), nvals=rec["nv"],
                             tla=func_to_tla(rec), meta=rec["_meta"], vals=rec["_vals"]))
     return dict(funcs=out)
+
+
+def export_family(args: tuple[str, str]) -> dict[str, Any]:
+    """Worker: generate a table-driven family (c06prim / c06wrap) for the tree under test, drop the
+    functions the tree's own front end rejects (a primitive may not be reachable in the way the
+    template assumes), and export the IR of the rest.  Returns the final source and cases as well."""
+    from harness.drivers import c06_families as FAM
+    workroot, which = args
+    if _REAL_INSERT[0] is None:
+        _worker_init()
+    info: dict[str, Any] = {}
+    if which == "c06prim":
+        fam, info = FAM.primitive_family()
+    else:
+        fam = FAM.wrapper_family()
+    drop: set[str] = set()
+    cwd = os.getcwd()
+    try:
+        for attempt in range(8):
+            src = fam.source(drop)
+            case = dict(file="<probes>", name=which, main=src, files={}, real_typeshed=True)
+            r = compile_case(case, os.path.join(workroot, "ir-" + which))
+            if not r["error"]:
+                break
+            bad = {fam.func_at_line(drop, ln) for ln in FAM.error_lines("\n".join(r.get("messages", [])), "native.py")}
+            bad.discard(None)
+            if not bad:
+                raise MachineryError("family %s does not compile: %s" % (which, r["error"]))
+            drop |= bad  # type: ignore[arg-type]
+        else:
+            raise MachineryError("family %s still does not compile after pruning: %s" % (which, r["error"]))
+    finally:
+        os.chdir(cwd)
+    out = []
+    for stage in ("rc", "final"):
+        for fullname, rec in r[stage]:
+            out.append(dict(prog="<probes>::" + which, stage=stage, fn=fullname,
+                            nops=sum(len(b) for b in rec["blocks"]), nvals=rec["nv"],
+                            tla=func_to_tla(rec), meta=rec["_meta"], vals=rec["_vals"]))
+    used = sorted({nm.split(":", 1)[1] for f in out for blk in f["meta"] for nm, _ in blk if nm.startswith("CallC:")})
+    dropped = sorted("%s (%s)" % (f["name"], f["desc"]) for f in fam.funcs if f["name"] in drop)
+    return dict(funcs=out, source=src, cases=fam.live_cases(drop), dropped=dropped, info=info, c_functions_used=used,
+                nfuncs=len(fam.funcs) - len(drop))
+
+
+def build_family(d: str, opt: str, name: str, source: str, cases: list[dict[str, Any]]) -> None:
+    """C extension of one table-driven family + its interpreted twin + the case tables."""
+    os.makedirs(os.path.join(d, "interp"), exist_ok=True)
+    bd = os.path.join(d, "build-" + name)
+    os.makedirs(bd, exist_ok=True)
+    for where in (bd, os.path.join(d, "interp")):
+        with open(os.path.join(where, name + ".py"), "w", encoding="utf-8") as f:
+            f.write(source)
+    for where in (d, os.path.join(d, "interp")):
+        with open(os.path.join(where, name + "_cases.json"), "w") as f:
+            json.dump(cases, f)
+        shutil.copyfile(RUNNER_SRC, os.path.join(where, "c06_runner.py"))
+    env = repo_env({"MYPYC_OPT_LEVEL": opt, "MYPYC_DEBUG_LEVEL": "0"})
+    p = subprocess.run([PY, "-m", "mypyc", name + ".py"], cwd=bd, env=env, capture_output=True, text=True, timeout=2400)
+    so = [f for f in os.listdir(bd) if f.startswith(name + ".") and f.endswith(".so")]
+    if p.returncode != 0 or not so:
+        raise MachineryError("mypyc build of %s failed (-O%s): %s" % (name, opt, (p.stdout + p.stderr)[-1500:]))
+    shutil.copyfile(os.path.join(bd, so[0]), os.path.join(d, so[0]))
 
 
 def build_probes(d: str, opt: str, ngen: int) -> None:
